@@ -11,6 +11,7 @@ input i :
      F = {"pre":[[ws,c|null]..], "lines":[{"src":[line,start,end], "segs":[S..]}..]}
      S = {"items":[[ws,tok]..], "tw":ws, "c":c|null, "blank":[[ws,c|null]..]},  tok = {"n":text} | "=>" | "&" | "|" | "(" | ")"
      texts[k] must be the rendering of forms[k] (checked here against `Graph.renderText`)
+     optional "cfgobs":[digest|null ..]: per form, digest of TaskDefs / edges after WorkflowConfig (judge only)
   {"kind":"raw", "text":str}
 observed o / model m :
   {"r":[R..], "s":R'}   one R per text;  R = {"err":"GraphParseError"|"other"}
@@ -205,7 +206,10 @@ def tokenize (s : Str) : List PTok :=
 def readNode (s : Str) : Option Node :=
   match s with
   | '@' :: r =>
-    if !r.isEmpty && r.all (fun c => isWord c || c == '-' || c == '+' || c == '%') then some { name := s } else none
+    -- an xtrigger: `@` and a name (REC_NODES)
+    (match r with
+     | c :: r' => if isWord c && r'.all isNameCh then some { name := s } else none
+     | [] => none)
   | _ =>
     let (sui, s1) := match s with | '!' :: r => (true, r) | _ => (false, s)
     match s1 with
@@ -512,7 +516,7 @@ def subsetsOf : List Str → List (List Str)
   | a :: r => let s := subsetsOf r; s ++ s.map (a :: ·)
 
 def valuations (atoms : List Str) : List (List Str) :=
-  if atoms.length ≤ 10 then subsetsOf atoms
+  if atoms.length ≤ 8 then subsetsOf atoms
   else
     let singles := atoms.map fun a => [a]
     let cos := atoms.map fun a => atoms.filter (· != a)
@@ -625,8 +629,9 @@ def judgeAst (lines : List SLine) (forms : List (Form × List SLine)) (obs : Lis
 /-- which recorded defect (if any) explains that text outside the grammar was not rejected with
 GraphParseError (`lines`: the logical lines without white space):
 * `rhs-valueerror` — another exception was raised;
-* `expression-unchecked` — a line with `=>` has an element that is not an expression of nodes
-  (operators / parentheses / misplaced `!` / texts that are several nodes run together);
+* `expression-unchecked` — a line with `=>` has an element that is not an expression of nodes although
+  every text in it passes for nodes once cut at `!` and freed of `@name` texts (operators, parentheses,
+  misplaced `!`, several nodes run together such as `a:x@y`);
 * `bad-node-not-last-line` — every offending line is before the last one and has a node that is not a
   node even after the code's own treatment of `!` and `@xtrigger` texts, the last line has none;
 * `lone-line-unchecked` — every other offending line is a line without `=>`.
@@ -649,14 +654,8 @@ def malformedCause (lines : List (List Spec.PTok)) (ob : Obs) : String :=
   let hardBad (l : List Spec.PTok) : Bool := (atoms l).any fun a => (pieces a).any unreadable
   let fails (l : List Spec.PTok) : Bool := ((Spec.splitArrows l).mapM Spec.readExpr).isNone
   let hasArrow (l : List Spec.PTok) : Bool := l.contains Spec.PTok.arrow
-  -- `@name` followed by an offset / qualifier / `?`: one node for REC_NODES, not a node for the grammar
-  let xtrigSuffixed (a : Str) : Bool :=
-    match a with
-    | '@' :: r => (match Spec.readNode r with | some n => !n.suicide | none => false)
-    | _ => false
   if ob.err == some "other" then "rhs-valueerror: "
-  else if lines.any fun l => fails l && hasArrow l &&
-      (!((atoms l).any unreadable) || (atoms l).any fun a => unreadable a && !xtrigSuffixed a) then "expression-unchecked: "
+  else if lines.any fun l => fails l && hasArrow l && !hardBad l then "expression-unchecked: "
   else
     match lines.reverse with
     | [] => ""
@@ -731,6 +730,20 @@ def handle (i o : Json) : Except String Reply := do
   let rs := texts.map fun t => resJson (parseText (S t))
   let m := Json.mkObj [("r", Json.arr rs.toArray), ("s", structJson (parseStruct lines))]
   let v := judgeAst lines fl obsR
+  -- second stage: forms with the same parser tables must give the same TaskDefs / edges through WorkflowConfig
+  let cfg : List (Option String) := ((jArrField? i "cfgobs").getD []).map jStr?
+  let obsJ := (jArrField? o "r").getD []
+  let v := Id.run do
+    if !v.ok || cfg.isEmpty then return v
+    for (a, ka) in cfg.zipIdx do
+      for (b, kb) in cfg.zipIdx do
+        if ka < kb then
+          match a, b with
+          | some x, some y =>
+            if x != y && (obsJ[ka]?.map Json.compress) == (obsJ[kb]?.map Json.compress) then
+              return ⟨false, s!"config-level: forms {ka} and {kb} give the same parser tables but different TaskDefs / edges ({x} vs {y})"⟩
+          | _, _ => pure ()
+    return v
   return { model := m, holds := v.ok, why := v.why }
 
 end CylcModel.DrvC14
